@@ -46,6 +46,9 @@ def make_b(rows, T, mode, seed):
     for r in fut:
         if mode == 'delete' or (mode == 'mix' and rnd.random() < 0.5):
             continue
+        if mode == 'blank':
+            new.append(r[:3] + [None, None, None])          # the dates stay, every later price cell is empty
+            continue
         if mode == 'wild':
             new.append(r[:3] + [None if x is None else round(x * level * rnd.uniform(0.97, 1.03), 4) for x in r[3:]])
             continue
@@ -183,7 +186,7 @@ def run_case(case):
     if d:
         raise Violation('results dated <= %s changed when only market data after that day was %s: %s' % (
             T, {'rewrite': 'rewritten', 'delete': 'deleted', 'mix': 'rewritten/deleted',
-                'wild': 'rewritten by orders of magnitude'}[case['mode']], d))
+                'wild': 'rewritten by orders of magnitude', 'blank': 'blanked'}[case['mode']], d))
     cls = list(case.get('labels', []))
     cls += [cfg['rebalance'], cfg['alpha']['kind'], cfg['universe']['kind'], 'future_' + case['mode']]
     fills_before = sum(1 for f in ra.fills if f[0] <= Tend)
@@ -213,12 +216,15 @@ def cases(draw):
     seed = draw(st.integers(0, 2 ** 31))
     mk = {}
     labels = ['market_' + kind]
+    wk = draw(st.sampled_from([False, False, True]))      # a seven-day vendor: some Saturdays and Sundays carry a bar
+    if wk:
+        labels.append('weekend_bars')
     late_idx = draw(st.integers(0, len(names) - 1)) if draw(st.sampled_from([False] * 6 + [True])) else -1
     for i, s in enumerate(names):
         late = i == late_idx
         first = d0 + D.timedelta(days=draw(st.integers(1, max(1, n // 2)))) if late else d0 - D.timedelta(days=7)
         rows = market.build_rows(seed + 31 * i, first, (d1 - first).days + 2, gappy='gappy' in kind,
-                                 missing='missing' in kind)
+                                 missing='missing' in kind, weekend_rows=wk)
         if not rows:
             rows = market.build_rows(seed + 31 * i, d0 - D.timedelta(days=7), n + 9)
         elif late:
@@ -241,7 +247,7 @@ def cases(draw):
                 cut = prev
                 labels.append('holiday_on_a_month_end_cut_the_day_before')
     return {'cfg': cfg, 'market': mk, 'cut': [cut.year, cut.month, cut.day],
-            'mode': draw(st.sampled_from(['rewrite', 'rewrite', 'delete', 'mix', 'wild'])), 'seed': draw(st.integers(0, 10 ** 6)),
+            'mode': draw(st.sampled_from(['rewrite', 'rewrite', 'delete', 'mix', 'wild', 'blank'])), 'seed': draw(st.integers(0, 10 ** 6)),
             'labels': labels + lab, 'reuse_handler': draw(st.sampled_from([False, False, True])),
             'file_order': draw(st.sampled_from(['sorted', 'sorted', 'reversed', 'shuffled'])),
             'second_source': draw(st.sampled_from([None, None, None, 0, 2, 9, 'late', 'late']))}
